@@ -136,9 +136,14 @@ CHECKS = {
             'to) is read under pairwise distinct indices (cursors_blocks, cursors_blocks_nodup), _get_number_of_bins finds '
             'the three dimensions (nbBins_blocks), and the row printed for (group, time step, mu zone, phi zone) is the '
             'content of the cell at those indices. grid_read (added last): on such a grid convert_spectrum RETURNS and every printed row is in its cell — the former hypothesis is discharged when no block has more rows than the first one, the last block has a row and the rows of the first block continue each other (grid_fill_returns: fill_arrays_and_bins raises neither the bins nor the index error, fillRows_succeeds / fill_succeeds_rest; muKeys_grid / phiKeys_grid: it collects exactly one edge per mu zone and per phi zone, the first printed bounds in order; negBlock_grid / addLast_returns: add_last_bins finds the last edges in the blocks that carry them; grid_convert_returns). '
-            'NOT proved: grids '
+            'Apollo3 (Model/Ap3.lean, Props/C10Ap3.lean): what Reader (make_bins, hdfdataset_to_dataset, build_dataset, '
+            'extract_output_info) and Picker (_make_bins, _make_dataset, nb_anisotropies, pick_standard_value) make of one '
+            'stored array is transcribed - picker_eq_reader: on the documented layout both fail or both return the same '
+            'dataset; reader_returns_stored / picker_returns_stored: the cells returned are the stored cells in the stored '
+            'order and the bins fit the shape; concentration_agree - and compared with both classes on every array of the '
+            'synthetic HDF5 files (driver op ap3). NOT proved: grids '
             'without one of the axes, the pyparsing grammar, the mesh / Green '
-            'bands / IFP / keff / sensitivity builders, the Apollo3 reader and picker. These are decided on every run by (a) '
+            'bands / IFP / keff / sensitivity builders, the walk of the Apollo3 reader over the file and h5py. These are decided on every run by (a) '
             'bit-exact correspondence of `convert` with common.convert_spectrum + data_convertor.convert_data on generated '
             'token lists (all four axes, both printing orders, gaps, ragged sub-spectra: same exception class), with an '
             'independent ground-truth oracle (every printed row found under its own bounds); (b) the shipped listings with '
